@@ -154,6 +154,33 @@ def run(ctx: common.Ctx):
     ctx.expect(accepted == increasing, 'validation', f'SigmaCoordinates accepted={accepted} for {b.tolist()}',
                dict(boundaries=b.tolist()))
 
+  # many layers (every run): "all layer counts" has no upper end; the cumulative-sum strategies may switch
+  # algorithm with the length of the axis (seeded C13-5: a long-axis fallback above 256 entries)
+  for nbig in (257, 300, int(rng.integers(258, 400))):
+    for kindb in ('equidistant', 'uneven'):
+      dz = np.ones(nbig) if kindb == 'equidistant' else rng.uniform(0.2, 1.8, nbig)
+      bb = np.concatenate([[0.0], np.cumsum(dz) / dz.sum()]); bb[-1] = 1.0
+      cb = sc.SigmaCoordinates(bb)
+      xb = rng.standard_normal((nbig, 2))
+      binp = dict(layers=nbig, kind=kindb, seed=ctx.seed)
+      ctx.case(('many-layers', nbig, kindb), nontrivial=True)
+      with ctx.impl('many-layers-exception', binp):
+        for method in ('dot', 'jax'):
+          cs_ = np.asarray(jnu.cumsum(jnp.asarray(xb), 0, method=method))
+          rc_ = np.asarray(jnu.reverse_cumsum(jnp.asarray(xb), 0, method=method))
+          ctx.expect(np.abs(cs_ - np.cumsum(xb, 0)).max() < 1e-10 * nbig, 'many-layers',
+                     f'cumsum[{method}] over {nbig} entries differs from the sequential sum', binp)
+          ctx.expect(np.abs(rc_ - np.cumsum(xb[::-1], 0)[::-1]).max() < 1e-10 * nbig, 'many-layers',
+                     f'reverse_cumsum[{method}] over {nbig} entries differs from the sequential reverse sum '
+                     f'(max {np.abs(rc_ - np.cumsum(xb[::-1], 0)[::-1]).max():.3g})', binp)
+          dn_ = np.asarray(sc.cumulative_sigma_integral(jnp.asarray(xb), cb, axis=0, downward=True, cumsum_method=method))
+          up_ = np.asarray(sc.cumulative_sigma_integral(jnp.asarray(xb), cb, axis=0, downward=False, cumsum_method=method))
+          tot_ = np.asarray(sc.sigma_integral(jnp.asarray(xb), cb, axis=0))
+          ctx.expect(np.abs(dn_[-1] - tot_).max() < 1e-10 and np.abs(up_[0] - tot_).max() < 1e-10, 'many-layers',
+                     f'cumulative integrals over {nbig} layers do not end at the total ({method})', binp)
+          ctx.expect(np.abs(dn_ + up_ - tot_ - xb * cb.layer_thickness[:, None]).max() < 1e-10, 'many-layers',
+                     f'down + up != total + local over {nbig} layers ({method})', binp)
+
   outs = ctx.model(lines)
   for (op, inp, impl, kind), o in zip(checks, outs):
     if o in ('bad-op', 'value-error'):
@@ -195,6 +222,27 @@ def run(ctx: common.Ctx):
         ctx.expect(dinoutil.relerr(fn(jnp.moveaxis(xj, 0, 2), 2, method='dot'),
                                    jnp.moveaxis(fn(xj, 0, method='jax'), 0, 2)) < TOL,
                    'cumsum-axes', f'{fn.__name__}: axis handling differs', inp)
+      # integer-dtype fields are admissible data: every operator must act on them as on the same values in float64
+      xi = rng.integers(-9, 10, size=(n, 2, 3))
+      xif = jnp.asarray(xi.astype(np.float64))
+      iinp = dict(boundaries=b.tolist(), x_int=xi.tolist())
+      int_ops = [('sigma_integral', lambda v: sc.sigma_integral(v, coords, axis=0))]
+      for method in ('dot', 'jax'):
+        int_ops += [(f'cumsum[{method}]', lambda v, m=method: jnu.cumsum(v, 0, method=m)),
+                    (f'reverse_cumsum[{method}]', lambda v, m=method: jnu.reverse_cumsum(v, 0, method=m))]
+        for dn in (True, False):
+          int_ops.append((f'cumulative_sigma_integral[{method},down={dn}]', lambda v, m=method, dn=dn:
+                          sc.cumulative_sigma_integral(v, coords, axis=0, downward=dn, cumsum_method=m)))
+      if n >= 2:
+        wi = jnp.asarray(rng.standard_normal((n - 1, 2, 3)))
+        int_ops += [('centered_difference', lambda v: sc.centered_difference(v, coords, axis=0)),
+                    ('centered_vertical_advection', lambda v: sc.centered_vertical_advection(wi, v, coords, axis=0)),
+                    ('upwind_vertical_advection', lambda v: sc.upwind_vertical_advection(wi, v, coords, axis=0))]
+      for nm, op in int_ops:
+        gi, gf = np.asarray(op(jnp.asarray(xi)), dtype=np.float64), np.asarray(op(xif))
+        ctx.expect(gi.shape == gf.shape and np.abs(gi - gf).max() <= 1e-11 * (1 + np.abs(gf).max()), 'integer-dtype',
+                   f'{nm} on an integer-dtype field differs from the same values in float64 by '
+                   f'{np.abs(gi - gf).max() if gi.shape == gf.shape else "shape"}', dict(iinp, op=nm))
       if n >= 2:
         a0, s0 = rng.standard_normal(2)
         aff = (a0 + s0 * coords.centers)[:, None, None] * np.ones((n, 2, 3))
